@@ -705,6 +705,119 @@ fn check_tsvd(out: &mut Out, x: &Rows, k: usize, aux_seed: u64, fam: &str, stat:
     }
 }
 
+
+// ------------------------------------------------------------------------------------------
+// search: the same data in another unit (multiplied by 2^shift: exact in binary64)
+// ------------------------------------------------------------------------------------------
+fn scale_rows(x: &Rows, shift: i32) -> Rows {
+    let f = 2f64.powi(shift);
+    x.iter().map(|r| r.iter().map(|v| v * f).collect()).collect()
+}
+fn col_var(t: &Rows, a: usize) -> f64 {
+    let n = t.len() as f64;
+    let m = t.iter().map(|r| r[a]).sum::<f64>() / n;
+    t.iter().map(|r| (r[a] - m) * (r[a] - m)).sum::<f64>() / (n - 1.0)
+}
+/// PCA / truncated SVD of x and of x * 2^shift: the property's quantities are those of the data,
+/// so the explained variances (energies) scale by 4^shift (by 1 in correlation mode) and, where the
+/// spectrum has clear gaps, the components agree up to sign.  `tsvd` selects truncated SVD.
+fn check_unit(out: &mut Out, x: &Rows, k: usize, use_corr: bool, tsvd: bool, shift: i32, fam: &str) {
+    let n = x.len();
+    let p = x[0].len();
+    let xs = scale_rows(x, shift);
+    let entry = if tsvd { "tsvd_unit" } else { "pca_unit" };
+    let input = json!({"entry": entry, "x": x, "k": k, "corr": use_corr, "shift": shift, "n": n, "p": p});
+    let mut key: Vec<f64> = x.iter().flatten().cloned().collect();
+    key.extend([k as f64, shift as f64, if use_corr { 1.0 } else { 0.0 }, if tsvd { 3.0 } else { 4.0 }]);
+    out.count(&format!("search:{}:{}:{}", entry, fam, if tsvd { if n > p { "tall" } else { "wide_or_square" } } else if use_corr { "cor" } else if n > p { "cov_svd_path" } else { "cov_evd_path" }));
+    out.count(&format!("search:unit_shift:{}", if shift < 0 { "2^-60..2^-20" } else { "2^20..2^60" }));
+    if !finite_rows(&xs) || k == 0 || k > p || (tsvd && k >= p) {
+        return;
+    }
+    if !tsvd && use_corr && (0..p).any(|j| x.iter().all(|r| r[j] == x[0][j])) {
+        out.count("excluded:cor_constant_column");
+        return;
+    }
+    out.eval(hash_f64s(&key), n >= 3 && p >= 2);
+    // (components, scores) of both fits
+    let run = |d: &Rows| -> Option<(Rows, Rows)> {
+        if tsvd {
+            match tsvd_fit(d, k) {
+                Ok(Ok(s)) => match guard(|| s.transform(&dense(d))) {
+                    Ok(Ok(t)) => Some((to_rows(s.components()), to_rows(&t))),
+                    _ => None,
+                },
+                _ => None,
+            }
+        } else {
+            match pca_fit(d, k, use_corr) {
+                Ok(Ok(m)) => match guard(|| m.transform(&dense(d))) {
+                    Ok(Ok(t)) => Some((to_rows(m.components()), to_rows(&t))),
+                    _ => None,
+                },
+                _ => None,
+            }
+        }
+    };
+    let (cb, tb) = match run(x) {
+        Some(r) => r,
+        None => return, // reported by the plain oracles
+    };
+    let (cs, ts) = match run(&xs) {
+        Some(r) => r,
+        None => {
+            out.fail("unit_invariance", "fit/transform fails on the rescaled data although it succeeds on the data", input);
+            return;
+        }
+    };
+    if !finite_rows(&tb) || !finite_rows(&ts) || !finite_rows(&cs) {
+        if finite_rows(&tb) {
+            out.fail("unit_invariance", "non-finite result on the rescaled data", input);
+        }
+        return;
+    }
+    // explained variance (PCA) / energy (truncated SVD) per component
+    let f2 = if !tsvd && use_corr { 1.0 } else { 4f64.powi(shift) };
+    let q = |t: &Rows, a: usize| -> f64 { if tsvd { t.iter().map(|r| r[a] * r[a]).sum() } else { col_var(t, a) } };
+    let vb: Vec<f64> = (0..k).map(|a| q(&tb, a)).collect();
+    let vs: Vec<f64> = (0..k).map(|a| q(&ts, a) / f2).collect();
+    let top = vb.iter().fold(0.0f64, |m, v| m.max(*v));
+    if top <= 0.0 || !top.is_finite() {
+        out.count("excluded:no_variance");
+        return;
+    }
+    for a in 0..k {
+        if (vs[a] - vb[a]).abs() > 1e-9 * top {
+            out.fail(
+                "unit_invariance",
+                &format!("component {}: explained variance / energy {:e} in the original unit, {:e} (rescaled back) after multiplying the data by 2^{}", a, vb[a], vs[a], shift),
+                input,
+            );
+            return;
+        }
+    }
+    // components up to sign where the spectrum separates them
+    let cf = if !tsvd && use_corr { 2f64.powi(-shift) } else { 1.0 }; // correlation mode: P = D^-1 V scales with 1/unit
+    for a in 0..k {
+        let gap_ok = (a == 0 || vb[a - 1] - vb[a] > 1e-3 * top) && (a + 1 >= k || vb[a] - vb[a + 1] > 1e-3 * top) && (a + 1 < k || k == p || vb[a] > 1e-3 * top);
+        if !gap_ok || a + 1 == k && k < p {
+            out.count("unit_components:not_compared(no clear gap or last kept)");
+            continue;
+        }
+        let cmax = (0..p).fold(0.0f64, |m, i| m.max(cb[i][a].abs()));
+        for i in 0..p {
+            if (cs[i][a].abs() / cf - cb[i][a].abs()).abs() > 1e-6 * cmax {
+                out.fail(
+                    "unit_invariance",
+                    &format!("component {} differs (beyond sign) after multiplying the data by 2^{}: |{:e}| vs |{:e}| at row {}", a, shift, cs[i][a] / cf, cb[i][a], i),
+                    input,
+                );
+                return;
+            }
+        }
+    }
+}
+
 // ------------------------------------------------------------------------------------------
 // generators
 // ------------------------------------------------------------------------------------------
@@ -802,6 +915,8 @@ fn replay_into(out: &mut Out, inp: &Value, fam: &str, stat: &mut Stat) -> bool {
     match inp["entry"].as_str().unwrap_or("") {
         "pca" => check_pca(out, &x, k, inp["corr"].as_bool().unwrap_or(false), aux, fam, stat),
         "tsvd" => check_tsvd(out, &x, k, aux, fam, stat),
+        "pca_unit" => check_unit(out, &x, k, inp["corr"].as_bool().unwrap_or(false), false, inp["shift"].as_i64().unwrap_or(0) as i32, fam),
+        "tsvd_unit" => check_unit(out, &x, k, false, true, inp["shift"].as_i64().unwrap_or(0) as i32, fam),
         _ => return false,
     }
     true
@@ -903,6 +1018,23 @@ fn main() {
             out.count("excluded:cor_constant_column");
         }
         corr_tsvd(&mut out, &mut rng, &x, k.min(p), validate && i % 2 == 0);
+        if i % 2 == 0 || a.thorough {
+            // the same data in a tiny / huge unit (exact rescaling): model vs serde state, and the
+            // factorisation's post-condition at relative tolerance
+            let shift = (if rng.bool() { -1 } else { 1 }) * rng.int(20, 60) as i32;
+            let xs = scale_rows(&x, shift);
+            if finite_rows(&xs) {
+                out.count(&format!("corr:unit_shift:{}", if shift < 0 { "2^-60..2^-20" } else { "2^20..2^60" }));
+                corr_pca(&mut out, &mut rng, &xs, k.min(p), false, true);
+                if !constant_col && i % 4 == 0 {
+                    corr_pca(&mut out, &mut rng, &xs, k.min(p), true, true);
+                }
+                if p >= 2 {
+                    let k2 = rng.below(p);
+                    corr_tsvd(&mut out, &mut rng, &xs, k2, i % 4 == 0);
+                }
+            }
+        }
         if p >= 2 {
             let k2 = rng.below(p);
             corr_tsvd(&mut out, &mut rng, &x, k2, false);
@@ -941,6 +1073,39 @@ fn main() {
         }
         if i % 5 == 0 {
             check_tsvd(&mut out, &x, p + rng.below(2), 1, FAMILIES[fam], &mut stat);
+        }
+    }
+    // ---- search: the same data sets expressed in a tiny / huge unit ----
+    let nunit = if a.thorough { 3000 } else { 500 };
+    for i in 0..nunit {
+        let p = rng.usize_in(1, 8);
+        let n = match i % 4 {
+            0 => rng.usize_in(2, p.max(2)), // EVD path in covariance mode
+            1 => p.max(2),
+            2 => p + 1 + rng.below(3),
+            _ => rng.usize_in(2, 40),
+        };
+        let fam = [0usize, 1, 2, 3, 4, 6, 7][i % 7];
+        let x = gen_data(&mut rng, n, p, fam);
+        let shift = (if i % 2 == 0 { -1 } else { 1 }) * rng.int(20, 60) as i32;
+        let xs = scale_rows(&x, shift);
+        if !finite_rows(&xs) {
+            continue;
+        }
+        let famname = format!("unit_scaled({})", FAMILIES[fam]);
+        let mode = i % 3 == 2;
+        for k in 1..=p {
+            check_pca(&mut out, &xs, k, mode, rng.next_u64() >> 12, &famname, &mut stat);
+        }
+        check_pca(&mut out, &xs, rng.usize_in(1, p), !mode, rng.next_u64() >> 12, &famname, &mut stat);
+        let kk = rng.usize_in(1, p);
+        check_unit(&mut out, &x, kk, false, false, shift, FAMILIES[fam]);
+        check_unit(&mut out, &x, kk, true, false, shift, FAMILIES[fam]);
+        if p >= 2 {
+            for k in 1..p {
+                check_tsvd(&mut out, &xs, k, rng.next_u64() >> 12, &famname, &mut stat);
+            }
+            check_unit(&mut out, &x, rng.usize_in(1, p - 1), false, true, shift, FAMILIES[fam]);
         }
     }
     out.set("worst_error_over_allowance", json!(stat.worst));
